@@ -29,6 +29,9 @@ impl From<EK> for BK {
     }
 }
 
+/// Set of data types (bit t = data type t, up to 128 distinct types).
+pub type Mask = u128;
+
 /// A graph as a sequence of builder calls.
 ///
 /// `calls` may contain edges the builder must reject (self edges, cycle closing edges) and
@@ -37,10 +40,10 @@ impl From<EK> for BK {
 pub struct GraphSpec {
     pub n: usize,
     pub calls: Vec<(u32, u32, EK)>,
-    /// Bit `t` set: function reads data type `t` (0..8).
-    pub reads: Vec<u8>,
-    /// Bit `t` set: function writes data type `t` (0..8).
-    pub writes: Vec<u8>,
+    /// Bit `t` set: function reads data type `t` (0..128).
+    pub reads: Vec<Mask>,
+    /// Bit `t` set: function writes data type `t` (0..128).
+    pub writes: Vec<Mask>,
 }
 
 impl GraphSpec {
